@@ -7,6 +7,7 @@ package main
 import (
 	"fmt"
 	"math/big"
+	"sort"
 )
 
 type txInfo struct {
@@ -255,18 +256,31 @@ func (m *Monitor) c05(op Op, ok bool, prev, cur Snap) {
 			m.fail("C05:call-resurrected", "bridge call %d is live again", n)
 			continue
 		}
-		if !(op.Kind == "BridgeCall" && ok && n == prev.Ctr[2] && cur.Ctr[2] == n+1) {
+		if !((op.Kind == "BridgeCall" || op.Kind == "BridgeCallP") && ok && n == prev.Ctr[2] && cur.Ctr[2] == n+1) {
 			m.fail("C05:unexpected-new-call", "bridge call %d appeared in a %s step", n, op.Kind)
 			continue
 		}
-		good := c.Sender == op.Sender && c.Refund == op.Refund && c.To == op.To && string(c.Data) == string(op.Data) && string(c.Memo) == string(op.Memo) && len(c.Tokens) == len(op.Coins)
-		for i := range op.Coins {
-			if good && (c.Tokens[i][0].Int64() != op.Coins[i][0] || c.Tokens[i][1].Cmp(big.NewInt(op.Coins[i][1])) != 0) {
+		supplied := op.Coins
+		if op.Kind == "BridgeCallP" && op.Amount > 0 { // msg.value travels as the first token (FX)
+			supplied = append([][2]int64{{0, op.Amount}}, op.Coins...)
+		}
+		good := c.Sender == op.Sender && c.Refund == op.Refund && c.To == op.To && string(c.Data) == string(op.Data) && string(c.Memo) == string(op.Memo) && len(c.Tokens) == len(supplied)
+		for i := range supplied {
+			if good && (c.Tokens[i][0].Int64() != supplied[i][0] || c.Tokens[i][1].Cmp(big.NewInt(supplied[i][1])) != 0) {
 				good = false
 			}
 		}
 		if !good {
 			m.fail("C05:call-payload-differs", "queued bridge call %d is %+v, supplied %+v", n, c, op)
+		}
+		marked := false
+		for _, x := range cur.FromMsg {
+			if x == n {
+				marked = true
+			}
+		}
+		if marked != (op.Kind == "BridgeCall") {
+			m.fail("C05:call-origin-marker", "bridge call %d created by %s has from-msg marker = %v", n, op.Kind, marked)
 		}
 	}
 	for n, p := range pc {
@@ -285,26 +299,79 @@ func (m *Monitor) c05(op Op, ok bool, prev, cur Snap) {
 			m.fail("C05:call-vanished", "bridge call %d disappeared in a %s step", n, op.Kind)
 			continue
 		}
-		// the refund address receives exactly the tokens, or nothing at all
+		_ = byTimeout
+		if info := m.calls[n]; info != nil && info.resultSeen == 1 && refunded && byTimeout {
+			m.fail("C05:bridgecall:refund-after-observed-success", "bridge call %d was refunded although its successful execution had been observed", n)
+		}
+	}
+	m.refundsExact(op, ok, prev, cur, pc, cc)
+}
+
+// refundsExact: in a step that only settles bridge calls (an observed event or ExecuteClaim of a result) the user
+// balances move by exactly the refunds due: every refunded call pays each of its token amounts to ITS REFUND ADDRESS —
+// in the bank when the call was created by MsgBridgeCall (FX; bridge denom of a plain token; base denom of a registered
+// coin), as ERC-20 tokens when it was created by the precompile (registered coin; FX stays in the bank) — and nobody
+// else (in particular not the call's sender) receives anything.
+func (m *Monitor) refundsExact(op Op, ok bool, prev, cur Snap, pc, cc map[uint64]Call) {
+	if !ok || !(observing(op) || op.Kind == "ExecResult") {
+		return
+	}
+	fromMsg := map[uint64]bool{}
+	for _, n := range prev.FromMsg {
+		fromMsg[n] = true
+	}
+	want := map[acctKey]*big.Int{}
+	var nonces []uint64
+	for n := range pc {
+		nonces = append(nonces, n)
+	}
+	sort.Slice(nonces, func(i, j int) bool { return nonces[i] < nonces[j] })
+	for _, n := range nonces {
+		p := pc[n]
+		if _, still := cc[n]; still {
+			continue
+		}
+		if op.Kind == "ExecResult" {
+			success := false
+			for _, pd := range prev.Pending {
+				if pd.E == op.E && pd.Nonce == n {
+					success = pd.Ok
+				}
+			}
+			if success {
+				continue // executed externally: no refund
+			}
+		}
 		for _, t := range p.Tokens {
 			tok := int(t[0].Int64())
 			which := 0
-			if m.w.toks[tok].Kind == "ext" {
+			switch m.w.toks[tok].Kind {
+			case "ext":
 				which = 1
-			}
-			d := m.balDelta(prev, cur, p.Refund, tok, which)
-			if d == nil || !(d.Sign() == 0 || d.Cmp(t[1]) == 0) {
-				// several calls with the same refund address can be refunded in one step: only flag a non-multiple
-				if d == nil || len(pc)-len(cc) == 1 {
-					m.fail("C05:call-refund-amount", "bridge call %d: refund address balance of token %d moved by %v, locked %v", n, tok, d, t[1])
+			case "coin":
+				if !fromMsg[n] {
+					which = 2
 				}
 			}
-			if d != nil && d.Sign() != 0 {
-				refunded = true
+			k := acctKey{p.Refund, tok, which}
+			if want[k] == nil {
+				want[k] = new(big.Int)
 			}
+			want[k].Add(want[k], t[1])
 		}
-		if info := m.calls[n]; info != nil && info.resultSeen == 1 && refunded && byTimeout {
-			m.fail("C05:bridgecall:refund-after-observed-success", "bridge call %d was refunded although its successful execution had been observed", n)
+	}
+	for i, k := range m.w.keys {
+		if k.Acct < 0 {
+			continue
+		}
+		d := new(big.Int).Sub(cur.Bals[i], prev.Bals[i])
+		exp := want[k]
+		if exp == nil {
+			exp = new(big.Int)
+		}
+		if d.Cmp(exp) != 0 {
+			m.fail("C05:call-refund-destination", "settling bridge calls in a %s step: balance (user %d, token %d, %s) moved by %v, the refunds due to that account are %v",
+				op.Kind, k.Acct, k.Token, []string{"base denom", "bridge denom", "ERC-20"}[k.Which], d, exp)
 		}
 	}
 }
